@@ -277,6 +277,75 @@ def order_probe(res, cfg):
                       {"order_probe": True, "cfg": list(cfg)}, f"order machine: {r}")
 
 
+def orphan_probe(res, cfg):
+    """The program keeps only the triggers - bound onto another object with bind_events_to(),
+    taken from `events`, or the event method itself - and drops its reference to the machine
+    (`Workflow(doc).bind_events_to(doc)`); a garbage collection runs in between.  The triggers
+    are the same entry point all the same: calling them drives the machine over its model."""
+    import gc
+    import inspect
+
+    from ..drive import _Plain, loop
+    built = build(order_machine())
+    asyn = cfg.engine == "async"
+    if asyn:
+        import dataclasses
+        built = build(dataclasses.replace(order_machine(),
+                                          provided=(("sm", "after_transition", "a"),)))
+
+    def new():
+        return built.cls(built.new_model("s0"), rtc=cfg.rtc,
+                         allow_event_without_transition=cfg.allow)
+
+    def call(fn):
+        from ..env import CUR, Env
+        CUR.env = Env(built)
+        try:
+            r = fn(tag="t")
+            if inspect.isawaitable(r):
+                r = loop().run_until_complete(r)
+            return r
+        finally:
+            CUR.env = None
+
+    def bound():
+        sm = new()
+        holder = _Plain()
+        sm.bind_events_to(holder)
+        return sm.model, (lambda **kw: holder.e2(**kw)), (lambda **kw: holder.e1(**kw))
+
+    def items():
+        sm = new()
+        evs = {str(e): e for e in sm.events}
+        return sm.model, evs["e2"], evs["e1"]
+
+    def methods():
+        sm = new()
+        return sm.model, sm.e2, sm.e1
+
+    for how, mk in (("bind_events_to", bound), ("events item", items), ("event method", methods)):
+        res.stats["transitions"] += 2
+        res.hist["orphan-trigger"] += 1
+        msg = None
+        try:
+            model, e2, e1 = mk()
+            gc.collect()
+            call(e2)                      # s0 -e2-> s1
+            if model.state != "s1":
+                msg = f"after e2 the model holds {model.state!r}, expected 's1'"
+            else:
+                gc.collect()
+                call(e1)                  # s1 -e1-> s0
+                if model.state != "s0":
+                    msg = f"after e2, e1 the model holds {model.state!r}, expected 's0'"
+        except Exception as e:   # noqa: BLE001
+            msg = f"raised {type(e).__name__}: {e}"
+        if msg:
+            res.violation({"category": "orphan-trigger", "engine": cfg.engine},
+                          {"orphan_probe": True, "cfg": list(cfg)},
+                          f"trigger kept without the machine ({how}): {msg}")
+
+
 def _cat(msg):
     for key in ("allowed_events", "events:", "stored state", "exception", "outcome kind", "result",
                 "trace", "dirty", "current_state", "listed"):
@@ -293,6 +362,7 @@ def worker(block):
             probe(res, asyn, Cfg(*cfg))
             if not asyn:
                 order_probe(res, Cfg(*cfg))
+            orphan_probe(res, Cfg(*cfg))
         return res
     tier, lo, hi = block
     for (label, cs) in machines(tier)[lo:hi]:
@@ -339,6 +409,10 @@ def replay(sc):
     if sc.get("order_probe"):
         res = BlockResult()
         order_probe(res, cfg)
+        return res.violations[0]["message"] if res.violations else None
+    if sc.get("orphan_probe"):
+        res = BlockResult()
+        orphan_probe(res, cfg)
         return res.violations[0]["message"] if res.violations else None
     if sc.get("probe"):
         m = probe_machine(sc.get("asyn", False))
